@@ -1,7 +1,7 @@
 (* Corr.v — comparison of model outputs with the implementation's observables,
    evaluated by vm_compute from generated case files (definitions only). *)
 From Coq Require Import ZArith List Bool Lia.
-From Dendro Require Import Base Tree Grid Criteria Compute Index Prune PruneGhost Newick IO DEq Cache Plot Moments Stats.
+From Dendro Require Import Base Tree Grid Criteria Compute Index Prune PruneGhost Newick IO DEq Cache Plot Moments Stats Catalog.
 Import ListNotations.
 Open Scope Z_scope.
 
@@ -138,3 +138,7 @@ Definition pp_view (ps : list Moments.pt) :=
   let m := Stats.pp_sky ps in
   (Plot.qpair (Stats.tr2 m), (Plot.qpair (Stats.det2 m),
    (Plot.qpair (Stats.pp_y_cen ps), (Plot.qpair (Stats.pp_x_cen ps), Z.of_nat (Stats.pp_area_count ps))))).
+
+(* ---- catalogs (C12): the un-wrapping of one axis: (axis length, indices, expected) *)
+Definition unwrap_case : Type := Z * list Z * list Z.
+Definition unwrap_ok (c : unwrap_case) : bool := let '(n, l, e) := c in zl_eqb (Catalog.unwrap n l) e.
